@@ -234,13 +234,28 @@ func VH_C18_uri(kind int) {
 	sa, ca := vhSys("A")
 	svc := &Service{System: sa}
 	m := map[string]interface{}{"location": "loc"}
-	if v, present := vhBad(kind, "uri", vhStr); present {
-		m["uri"] = v
+	if kind != 7 {
+		if v, present := vhBad(kind, "uri", vhStr); present {
+			m["uri"] = v
+		}
+	} else {
+		// an array of strings that spells a real operation when glued together
+		// (the other string parameters accept that form; the uri does not)
+		m["uri"] = [][]interface{}{
+			{"/api/loc/admin/", "clear"},
+			{"/api/loc/facts/", "rem"},
+			{"/loc/admin/clear"},
+		}[vchoose(3)]
+		m["id"] = "f0"
 	}
 	out := &vhOut{}
 	_, err := svc.ProcessRequest(ca, m, out)
 	if kind != 5 {
 		vassert(err != nil, "bad-uri-is-an-error")
+	}
+	if kind == 7 {
+		js, gerr := sa.GetFact(ca, "loc", "f0")
+		vassert(gerr == nil && js != "", "refused-request-has-no-effect")
 	}
 	vreach("end")
 }
